@@ -84,13 +84,25 @@ class C13Monitor(FBMonitor):
     def on_fbstep(self, w, pre, post):
         mc = w.mc
         ctx = f"driver={w.sc['driver']}"
-        delta = np.asarray(mc.delta, dtype=float)
-        masses = mc.shaped_masses
-        power = mc.masses_scaling_power
+        p = w.sc["params"]
+        if w.sc["driver"] == "ForceBias":
+            delta = np.asarray(p["delta"], dtype=float)  # as configured
+        else:
+            delta = np.asarray(mc.delta, dtype=float)  # adaptive: must stay within the configured range
+            if np.any(delta < p["min_delta"] * (1 - 1e-12)) or np.any(delta > p["max_delta"] * (1 + 1e-12)):
+                self.violate(w, "adaptive_delta_out_of_range", ctx, f"delta in [{np.min(delta)}, {np.max(delta)}] vs [{p['min_delta']}, {p['max_delta']}]")
+        if p.get("update_masses") is not None:
+            masses = np.array(p["update_masses"], dtype=float)
+            if masses.ndim == 1:
+                masses = np.broadcast_to(masses[:, None], (len(w.atoms), 3))
+        else:
+            masses = np.broadcast_to(w.atoms.get_masses()[:, None], (len(w.atoms), 3))
+        power = p.get("masses_scaling_power")
+        power = 0.25 if power is None else np.asarray(power, dtype=float)
         scale = np.power(np.min(masses) / masses, power)
         bound = np.broadcast_to(delta * scale, post["positions"].shape)
         dr = post["positions"] - pre["positions"]
-        T = float(mc.temperature)
+        T = float(w.sc["params"]["temperature"])  # as configured
         forces = post["forces"]
         gam = np.clip(forces * delta / (2 * T * kB), -GMAX, GMAX)
         rounds = (post["ndraws"] - pre["ndraws"]) // 2
